@@ -41,6 +41,7 @@ type engine struct {
 	unwind             int
 	noIfConv           bool
 	querylog           string
+	slots              chan struct{}
 }
 
 // loadProgram loads /repo packages with the harness overlay.
@@ -444,6 +445,7 @@ func (e *engine) runObligation(fn *ssa.Function, maxPaths int) *obligationResult
 				work = work[:len(work)-1]
 				active++
 				mu.Unlock()
+				e.slots <- struct{}{}
 				if m == nil {
 					m = e.newMachine()
 					if e.querylog != "" {
@@ -454,6 +456,7 @@ func (e *engine) runObligation(fn *ssa.Function, maxPaths int) *obligationResult
 					}
 				}
 				ps, status := e.runPath(m, fn, prefix)
+				<-e.slots
 				mu.Lock()
 				active--
 				res.Paths++
